@@ -147,6 +147,7 @@ Theorem C04_multi_run_first_supplier :
              (n_prods (cfg2 NW n))
           else 0).
 Proof. exact C04m_run_first_supplier. Qed.
+(* (weak form: s0 existentially quantified; superseded by C04_multi_run_order_follows_policy_named at the end of this file, which names the state) *)
 Theorem C04_multi_run_order_follows_policy :
   forall (NW : net2) (inputs : inputs2),
          Main2b.goodB2b NW = true ->
@@ -236,3 +237,109 @@ Print Assumptions C04_multi_run_first_supplier.
 Print Assumptions C04_multi_run_order_follows_policy.
 Print Assumptions C04_multi_model_refines_order_step.
 Print Assumptions C04_multi_model_rows_wellformed.
+
+(* ==== integrated from c04strong (vacuity audit F4) ==== *)
+From SV Require Import Sim2.Inv2b_period.
+From SV Require Import Sim2.OrderStart2 Sim2.OrderStart2_proofs Sim2.OrderStart2_example.
+
+(* ---- C04_multi_run_order_follows_policy with the state NAMED: s0 is not existentially quantified but is the term
+   [order_start_state NW inputs t n] (Sim2/OrderStart2.v, executable) =
+       recv_orders2 (gen_demand2 (fold_left orders_action2 (visited_before n (order_visit2 NW)) (period_start_state NW inputs t)) n) n
+   with period_start_state = init_state2 (t = 0) / next_period2 of record t-1 (t > 0): the state of the model in period t after the
+   complete orders actions of the nodes visited before n in the orders traversal and after n's own demand generation and receipt of
+   inbound orders, up to but excluding n's own order placement.  [fold_left place_prod2 pre s0] then is the state when product k's turn
+   comes (the products before k at n have placed their orders). ---- *)
+Theorem C04_multi_run_order_follows_policy_named :
+  forall (NW : net2) (inputs : inputs2),
+         Main2b.goodB2b NW = true ->
+         Main2b.onceB2b NW = true ->
+         forall (t : nat) (n : N) (pre : list N) (k : N) (post : list N),
+         (t < length inputs)%nat ->
+         In n (nodes2 NW) ->
+         n_prods (cfg2 NW n) = pre ++ k :: post ->
+         let e := nth t (run2 NW inputs) empty_st2 in
+         let i := nth t inputs Inv2b_period.dflt_input2 in
+         let s0 := order_start_state NW inputs t n in
+           gq2 e (fOQFG, n, Ext, k) ==
+           (if disk2 NW (i_dis i) n dOP
+            then 0
+            else
+             capq (k_cap (PC NW n k))
+               (rule (k_pol (PC NW n k))
+                  (obs_ip2 NW
+                     (fold_left
+                        (fun (s : st2) (k' : N) =>
+                         place_prod2 NW (i_err i) s n k') pre s0) n k +
+                   i_err i n k))).
+Proof. exact C04m_run_order_follows_policy_named. Qed.
+
+(* the named state lies on the run's own path: record t is obtained from it by n's order placement, the orders actions of the nodes
+   visited after n, and the shipments phase *)
+Theorem C04_multi_run_record_from_order_start :
+  forall (NW : net2) (inputs : inputs2),
+         Main2b.goodB2b NW = true ->
+         forall (t : nat) (n : N),
+         (t < length inputs)%nat ->
+         In n (nodes2 NW) ->
+         let e := nth t (run2 NW inputs) empty_st2 in
+         let i := nth t inputs Inv2b_period.dflt_input2 in
+         exists aft : list N,
+           order_visit2 NW = visited_before n (order_visit2 NW) ++ n :: aft /\
+           e = fold_left (ships_action2 NW (i_dis i)) (ship_visit2 NW)
+                 (fold_left (orders_action2 NW (i_dis i) (i_dem i) (i_err i)) aft
+                    (place_orders2 NW (i_dis i) (i_err i) (order_start_state NW inputs t n) n)).
+Proof. exact C04m_record_from_order_start. Qed.
+
+(* the old, existential statement follows *)
+Corollary C04_multi_run_order_follows_policy_from_named :
+  forall (NW : net2) (inputs : inputs2),
+         Main2b.goodB2b NW = true ->
+         Main2b.onceB2b NW = true ->
+         forall (t : nat) (n : N) (pre : list N) (k : N) (post : list N),
+         (t < length inputs)%nat ->
+         In n (nodes2 NW) ->
+         n_prods (cfg2 NW n) = pre ++ k :: post ->
+         let e := nth t (run2 NW inputs) empty_st2 in
+         let i := nth t inputs Inv2b_period.dflt_input2 in
+         exists s0 : st2,
+           gq2 e (fOQFG, n, Ext, k) ==
+           (if disk2 NW (i_dis i) n dOP
+            then 0
+            else
+             capq (k_cap (PC NW n k))
+               (rule (k_pol (PC NW n k))
+                  (obs_ip2 NW
+                     (fold_left
+                        (fun (s : st2) (k' : N) =>
+                         place_prod2 NW (i_err i) s n k') pre s0) n k +
+                   i_err i n k))).
+Proof. exact C04m_run_order_follows_policy_weak. Qed.
+
+(* witness: exB2_net, period 1, node 3 (visited after node 4), product 31 after product 30 (pre = [30]): the record holds 4; the
+   equation holds with the named state and fails with init_state2, with the period's start state and with the state just before
+   node 3's own turn: the named state matters *)
+Example C04_multi_run_order_follows_policy_named_nonvacuous :
+  Main2b.goodB2b exB2_net = true /\ Main2b.onceB2b exB2_net = true /\ (1 < length exB2_inputs)%nat /\ In 3%N (nodes2 exB2_net) /\
+  n_prods (cfg2 exB2_net 3%N) = [30%N] ++ 31%N :: [] /\
+  visited_before 3%N (order_visit2 exB2_net) = [4%N] /\
+  let e := nth 1 (run2 exB2_net exB2_inputs) empty_st2 in
+  let i := nth 1 exB2_inputs Inv2b_period.dflt_input2 in
+  let rhs := fun s0 : st2 =>
+       if disk2 exB2_net (i_dis i) 3%N dOP then 0
+       else capq (k_cap (PC exB2_net 3%N 31%N)) (rule (k_pol (PC exB2_net 3%N 31%N))
+              (obs_ip2 exB2_net (fold_left (fun (s : st2) (k' : N) => place_prod2 exB2_net (i_err i) s 3%N k') [30%N] s0) 3%N 31%N + i_err i 3%N 31%N)) in
+  disk2 exB2_net (i_dis i) 3%N dOP = false /\
+  gq2 e (fOQFG, 3%N, Ext, 31%N) == 4 /\
+  gq2 e (fOQFG, 3%N, Ext, 31%N) == rhs (order_start_state exB2_net exB2_inputs 1 3%N) /\
+  ~ gq2 e (fOQFG, 3%N, Ext, 31%N) == rhs (init_state2 exB2_net) /\
+  ~ gq2 e (fOQFG, 3%N, Ext, 31%N) == rhs (period_start_state exB2_net exB2_inputs 1) /\
+  ~ gq2 e (fOQFG, 3%N, Ext, 31%N) == rhs (node_turn_state exB2_net exB2_inputs 1 3%N).
+Proof. split; [exact exB2_good|]. split; [vm_compute; reflexivity|]. split; [vm_compute; lia|]. split; [vm_compute; auto|].
+  split; [vm_compute; reflexivity|]. split; [vm_compute; reflexivity|]. cbv zeta.
+  split; [vm_compute; reflexivity|]. split; [vm_compute; reflexivity|]. split; [vm_compute; reflexivity|].
+  split; [|split]; vm_compute; discriminate. Qed.
+
+Print Assumptions C04_multi_run_order_follows_policy_named.
+Print Assumptions C04_multi_run_record_from_order_start.
+Print Assumptions C04_multi_run_order_follows_policy_from_named.
+Print Assumptions C04_multi_run_order_follows_policy_named_nonvacuous.
